@@ -121,6 +121,10 @@ FIXED = [
     ("C04", "C04/request-failed:gopher:plain", "b0f5438",
      "ZIP handler enabled and a *.zip file that holds an end-of-central-directory record but no readable directory (the last 22 "
      "bytes of an archive): is_zipfile() says yes, VFSZip() raises BadZipFile, connection closed without a reply in every protocol"),
+    ("C01", "C01/outside-access:os.listdir:elsewhere:type-prefixed", "5bf9db2",
+     "TAL handler enabled (allowpythonpath off) and a template whose path expressions climb through the loaders it is given "
+     "('root/../getchildrennames', 'root/../other/macros/m', 'dir/../../SIBLING/...'): the directory above the document root is "
+     "listed into the page, templates from there are compiled and used"),
     ("C12", "C12/directory-lost:vanishes-after-stat+linkfile-gophermap:error-reply", "10d7f11",
      "a directory presented through a gophermap, and a local link of that map whose target is removed between the handler's "
      "exists() and its description (populatefromvfs): FileNotFoundError escapes prepare(), the whole menu is answered with an error"),
